@@ -4,7 +4,7 @@ from harness.lib import RunResult
 
 PID = "C01"
 COQ_TARGETS = ["props/C01.vo"]
-THEOREMS = []
+THEOREMS = []   # default: every Theorem of coq/props/C01.v
 TRUSTED_BASE = ["SQLite: a write transaction is atomic and isolated; a crash before COMMIT leaves no trace; AUTOINCREMENT ids increase",
                 "task behaviour is a function of (stage, task, n-th execution) (scripted oracle mirrored by a scripted Python Task)",
                 "OCaml extraction of coq/model/Engine.v (ExtrOcamlBasic only) + hand-written I/O driver ocaml/oracle.ml"]
